@@ -70,12 +70,20 @@ func init() {
 			if tier != "thorough" {
 				api = thinCases(api, 2)
 			}
+			// every destination shape of the generator (kept in every position, allotments, nested blocks) fed by several sources
+			for _, d := range dstTrees(2, true, true, true) {
+				api = append(api, apiCase("C07", "api-destinations-x-several-sources", []string{sendFixed("USD", "{ @a @b }", d)}, nil))
+				if tier == "thorough" {
+					api = append(api, apiCase("C07", "api-destinations-x-several-sources", []string{sendFixed("USD", "{ @a @b @c }", d)}, nil))
+					api = append(api, apiCase("C07", "api-destinations-x-several-sources", []string{sendAll("USD", "{ @a @b }", d)}, nil))
+				}
+			}
 			cases = append(cases, withObserved(api, 1)...)
 			return cases
 		},
 		Bounds: map[string]map[string]interface{}{
-			"quick":    {"senders": "1..3", "receivers": "1..3", "names": "all aliasing patterns over 3 names, <kept> in every position", "amounts": "unbounded positive integers, equal totals", "api": "12 of 30 scripts with kept shares and one cap variable on several clauses, each also with every variable used again by a trailing send"},
-			"thorough": {"senders": "1..4", "receivers": "1..5", "names": "all aliasing patterns over 3 names, <kept> in every position", "amounts": "unbounded positive integers, equal totals", "api": "all 30 scripts, each also with observers"},
+			"quick":    {"senders": "1..3", "receivers": "1..3", "names": "all aliasing patterns over 3 names, <kept> in every position", "amounts": "unbounded positive integers, equal totals", "api": "12 of 30 scripts with kept shares and one cap variable on several clauses + all 49 destination shapes of the generator fed by two sources, each also with every variable used again by a trailing send"},
+			"thorough": {"senders": "1..4", "receivers": "1..5", "names": "all aliasing patterns over 3 names, <kept> in every position", "amounts": "unbounded positive integers, equal totals", "api": "all 30 scripts + 49 destination shapes x 3 source forms, each also with observers"},
 		},
 		Assumptions: []string{
 			"sender and receiver amounts are > 0 and the totals are equal (guaranteed by pushSender/pushReceiver and runSendStatement; asserted in the C04/C05 harnesses)",
